@@ -6,11 +6,19 @@ MANIFEST = dict(
     text='Theorems in coq/Properties/C17*.v (locked = sum of outstanding depths, reference-count / reachability invariant, counters, drain) are machine-checked over the engine model for every core history; tie = differential correspondence comparing STATE counters, per-record reference counts, manager reference counts and queue contents after every action and after the drain phase; monitor = census vs counters on implementation snapshots, zero after drain, no freed record reachable.',
     note="Trusted: Coq kernel; hand-written model validated by the correspondence check of the same run; extraction (ExtrOcamlBasic only); harness + hooks; sequential schedules at request/sweep granularity, one shard, manual clock (sweeper driver loops replayed by the harness); see evidence trusted_base for the full list of modelled-not-verified parts.",
 )
-PROFILES = [('core', 0.3), ('waiters', 0.2), ('timeouts', 0.15), ('expiry', 0.15), ('reentrant', 0.1), ('aof', 0.1), ('many', 0.02)]
+PROFILES = [("core", 0.25), ("waiters", 0.15), ("timeouts", 0.12), ("expiry", 0.12), ("reentrant", 0.1), ("aof", 0.08), ("keys", 0.08), ("sched", 0.08), ("many", 0.02)]
 MONITORS = ['C17', 'PANIC']
+
+
+def realtime(ctx, run):
+    """millisecond wheels run on the wall clock and are not modelled: checked on the implementation in real time"""
+    from tools import engine_rt
+    res, txt = engine_rt.run(run.impl, which=("C17",))
+    ctx.notes.append("real-time millisecond scenario: %d reply lines" % txt.count("rt reply"))
+    return res
 
 
 def run(ctx):
     if getattr(ctx, "replay", None):
         return _engine.replay(ctx, 'C17', MONITORS)
-    return _engine.run_engine_check(ctx, 'C17', PROFILES, MONITORS, n_quick=500, n_thorough=20000)
+    return _engine.run_engine_check(ctx, 'C17', PROFILES, MONITORS, n_quick=500, n_thorough=20000, impl_only=realtime)
